@@ -220,6 +220,14 @@ def gen_prim(r, cfg, k):
         elif k in ('OCTETSTRING',) + CHARS:
             lo = r.choice([0, 1, 2, 4])
             d['con'] = {'size': [lo, lo + r.choice([0, 1, 4, 200])]}
+            if k in CHARS and r.random() < 0.4:
+                # permitted alphabet (FROM ...), alone or together with the size
+                pool = [c for c in ALPHABETS[k] if c not in '\n\r']
+                alpha = ''.join(r.sample(pool, r.randrange(1, min(6, len(pool)) + 1)))
+                if r.random() < 0.5:
+                    d['con'] = {'alpha': alpha}
+                else:
+                    d['con']['alpha'] = alpha
         elif k == 'BITSTRING':
             lo = r.choice([0, 1, 8, 9])
             d['con'] = {'size': [lo, lo + r.choice([0, 1, 7, 64])]}
